@@ -877,6 +877,20 @@ func (e *env) trCall(x *ECall) (Val, XT, error) {
 		}
 		g.c.declareFun("s2b", []string{"Str"}, "Bytes")
 		return app("s2b", v), XT{S: "Bytes"}, nil
+	case "elemaddr":
+		v, xt, err := argv(0)
+		if err != nil {
+			return nil, XT{}, err
+		}
+		iv, _, err := argv(1)
+		if err != nil {
+			return nil, XT{}, err
+		}
+		sl, ok := xt.T.Underlying().(*types.Slice)
+		if !ok {
+			return nil, XT{}, e.errf("elemaddr of non-slice")
+		}
+		return app("eref", v, iv), xtOf(types.NewPointer(sl.Elem())), nil
 	case "deref":
 		v, xt, err := argv(0)
 		if err != nil {
@@ -1026,4 +1040,29 @@ func (e *env) trCall(x *ECall) (Val, XT, error) {
 		return nil, XT{}, e.errf("%s: body has sort %s, declared %s", x.Fn, xt.S, resXT.S)
 	}
 	return v, resXT, nil
+}
+
+// trAddr: the address of an embedded struct-valued field "p.f" (p a pointer to a struct).
+func (e *env) trAddr(x Expr) (string, types.Type, bool) {
+	sel, ok := x.(*ESel)
+	if !ok {
+		return "", nil, false
+	}
+	bv, bxt, err := e.tr(sel.X)
+	if err != nil {
+		return "", nil, false
+	}
+	st, ok := derefStruct(bxt.T)
+	if !ok {
+		return "", nil, false
+	}
+	s, _ := isStruct(st)
+	for i := 0; i < s.NumFields(); i++ {
+		if s.Field(i).Name() == sel.Sel {
+			if _, isS := isStruct(s.Field(i).Type()); isS {
+				return app("fld", bv.(string), fmt.Sprint(i)), s.Field(i).Type(), true
+			}
+		}
+	}
+	return "", nil, false
 }
